@@ -9,7 +9,9 @@
 (***************************************************************************)
 EXTENDS StateObs, Json
 
-CONSTANTS MaxSid, MaxV, MaxH
+CONSTANTS MaxSid, MaxV, MaxH,
+          SplitDrop   \* TRUE: the drop of a last handle is two separately scheduled steps, as in the code:
+                      \* fetch_sub (Dec*), then close() (LateClose); model-level only
 
 VARIABLES closed, sid, value, known, st, fin, want, task, q, senders, receivers, dead, evt
 
@@ -24,7 +26,7 @@ View == [closed |-> closed, sid |-> sid, hasval |-> value # 0, value |-> value, 
          oReceivers |-> oReceivers, bad |-> bad]
 
 Consts == [K |-> K, Wk |-> SetToSortedSeq({IF w = "A" THEN 1 ELSE 2 : w \in Wk}), Shared |-> Shared,
-           MaxSid |-> MaxSid, MaxV |-> MaxV, MaxH |-> MaxH]
+           MaxSid |-> MaxSid, MaxV |-> MaxV, MaxH |-> MaxH, SplitDrop |-> SplitDrop]
 
 Init == /\ closed = FALSE /\ sid = 0 /\ value = 0 /\ known = {0}
         /\ st = [f \in Slots |-> "none"] /\ fin = [f \in Slots |-> FALSE]
@@ -118,7 +120,7 @@ CloneSender ==
   /\ UNCHANGED <<closed, sid, value, known, st, fin, want, task, q, receivers, dead>>
   /\ Emit([op |-> "clone_sender"])
 DropSender ==
-  /\ Shared /\ senders > 0
+  /\ Shared /\ ~SplitDrop /\ senders > 0
   /\ senders' = senders - 1 /\ UNCHANGED receivers
   /\ CloseCore("drop_sender", senders = 1)
 CloneReceiver ==
@@ -127,9 +129,28 @@ CloneReceiver ==
   /\ UNCHANGED <<closed, sid, value, known, st, fin, want, task, q, senders, dead>>
   /\ Emit([op |-> "clone_receiver"])
 DropReceiver ==
-  /\ Shared /\ receivers > 0
+  /\ Shared /\ ~SplitDrop /\ receivers > 0
   /\ receivers' = receivers - 1 /\ UNCHANGED senders
   /\ CloseCore("drop_receiver", receivers = 1)
+
+(* ----- the last-handle drop as the code really performs it ----------------
+   GenericStateSender::drop / GenericStateReceiver::drop: fetch_sub; if it was the last: close().
+   Between the two steps other threads run.  A pending close() is encoded as count = -1.        *)
+DecSender ==
+  /\ Shared /\ SplitDrop /\ senders > 0
+  /\ senders' = IF senders = 1 THEN 0 - 1 ELSE senders - 1
+  /\ UNCHANGED <<closed, sid, value, known, st, fin, want, task, q, receivers, dead>>
+  /\ Emit([op |-> "dec_sender"])
+DecReceiver ==
+  /\ Shared /\ SplitDrop /\ receivers > 0
+  /\ receivers' = IF receivers = 1 THEN 0 - 1 ELSE receivers - 1
+  /\ UNCHANGED <<closed, sid, value, known, st, fin, want, task, q, senders, dead>>
+  /\ Emit([op |-> "dec_receiver"])
+LateClose(side) ==
+  /\ Shared /\ SplitDrop
+  /\ IF side = "s" THEN senders = 0 - 1 /\ senders' = 0 /\ UNCHANGED receivers
+                   ELSE receivers = 0 - 1 /\ receivers' = 0 /\ UNCHANGED senders
+  /\ CloseCore("late_close", TRUE)
 
 Destroy ==
   /\ \A r \in Slots : st[r] = "none"
@@ -145,6 +166,7 @@ Next == /\ ~dead
            \/ \E r \in Slots : \/ \E id \in 0..MaxSid : Create(r, id)
                                \/ Drop(r) \/ PollDone(r) \/ \E w \in Wk : Poll(r, w)
            \/ CloneSender \/ DropSender \/ CloneReceiver \/ DropReceiver \/ Destroy
+           \/ DecSender \/ DecReceiver \/ LateClose("s") \/ LateClose("r")
 
 Spec == Init /\ [][Next]_vars
 
@@ -155,7 +177,9 @@ QueueOK == /\ NoDup(q)
            /\ \A f \in Slots : st[f] = "reg" => task[f] # "-" /\ want[f] >= sid
            /\ closed => q = <<>>
            /\ (dead \/ ((value # 0) = (sid > 0)))
-Refines == /\ closed = oClosed /\ senders = oSenders /\ receivers = oReceivers
+Refines == /\ closed = oClosed
+           /\ (IF senders < 0 THEN 0 ELSE senders) = oSenders
+           /\ (IF receivers < 0 THEN 0 ELSE receivers) = oReceivers
            /\ sid = oPubN /\ (~dead => value = oLatest)
            /\ oCurId \in {0, sid} /\ (oMaxOld < sid \/ sid = 0)
            /\ \A f \in Slots : /\ (oA[f] = "none") = (st[f] = "none")
